@@ -404,6 +404,9 @@ func runCheck(root, repo string, spec *CheckSpec, tier string, seed int, only st
 func fmtModel(mv []ModelVal) string {
 	var p []string
 	for _, v := range mv {
+		if strings.HasPrefix(v.Tag, "blake2b(") {
+			continue // modelled hash bytes: kept in the file, not printed
+		}
 		p = append(p, v.Tag+"="+v.Val)
 	}
 	return strings.Join(p, " ")
